@@ -425,6 +425,9 @@ class Lazy(G):
             L.append("qry %d %s" % (k, q))
             k += 1
         L.append("qry 0 equals 2")
+        if r.random() < 0.6:
+            L.append("copy %d 2" % k); L.append("qry %d affine_dimension" % k); k += 1
+            L.append("copy %d 0" % k); L.append("qry %d affine_dimension" % k); k += 1
         L.append("stall"); L.append("end")
         return L
 
@@ -498,6 +501,8 @@ class Lazy(G):
         for q in qs[: r.randint(5, 9)]:
             L.append("copy %d 0" % k); L.append("qry %d %s" % (k, q)); k += 1
         L.append("qry 0 is_topologically_closed")
+        L.append("copy %d 1" % k); L.append("qry %d affine_dimension" % k); k += 1
+        L.append("copy %d 0" % k); L.append("qry %d affine_dimension" % k); k += 1
         L.append("stall"); L.append("end")
         return L
 
